@@ -21,6 +21,7 @@ func propC16(a *Analysis, r *Registry) {
 	X := b.X
 	S := X.S
 	const rB = "B-C16 formula"
+	sweepC16(a, r, b)
 	const rD = "B-C16 derived"
 	lin := "(x-s.Min)/(s.Max-s.Min)"
 	b.Formula(rB, "scale.(Linear).Map", "scale.(Linear).Map", []string{"s", "x"}, nil, 0,
